@@ -136,6 +136,8 @@ def csv_specs():
     cells = ['a', 'b', '']
     rows = [list(r) for n in (1, 2) for r in itertools.product(cells, repeat=n)]
     tables = [[r] for r in rows] + [[r1, r2] for r1 in rows[:5] for r2 in rows[:5]]
+    # blank lines (rows without cells) and the empty table: CSVNode has its own notion of equality for "nothing" tables
+    tables += [[], [[]], [[], []], [[], [], []], [[], ['a']], [['a'], []], [[], ['']], [[''], []]]
     return tables
 
 
